@@ -6,9 +6,11 @@ use crate::{
     error::{WriterError, WriterResult},
     reader::WriteXml,
 };
-use inflector::cases::{pascalcase::to_pascal_case, snakecase::to_snake_case};
+use super::structures::xml_name_to_rust_name;
+use inflector::cases::snakecase::to_snake_case;
 use roxmltree::Node;
 use std::{
+    borrow::Cow,
     fmt::{Display, Formatter},
     rc::Rc,
 };
@@ -109,7 +111,7 @@ impl<'n> TryFromNode<'n> for Field {
 
             let xml_name = ref_node.xml_name().ok_or(WriterError::InvalidReference)?;
             let rust_type = RustFieldType::Other(OtherRustType {
-                name: to_pascal_case(xml_name),
+                name: xml_name_to_rust_name(xml_name),
                 module,
             });
 
@@ -276,7 +278,7 @@ pub fn as_rust_type(node_type: &str, doc: &RustDocument) -> RustFieldType {
     let user_module = namespace.and_then(|ns| doc.find_module_name_from_namespace_reference(ns));
     if let Some(module) = user_module {
         return RustFieldType::Other(OtherRustType {
-            name: to_pascal_case(node_type),
+            name: xml_name_to_rust_name(node_type),
             module: Some(module.to_string()),
         });
     }
@@ -298,7 +300,7 @@ pub fn as_rust_type(node_type: &str, doc: &RustDocument) -> RustFieldType {
         "short" => RustFieldType::I16,
         "boolean" => RustFieldType::Bool,
         v => RustFieldType::Other(OtherRustType {
-            name: to_pascal_case(v),
+            name: xml_name_to_rust_name(v),
             module: namespace.and_then(|ns| {
                 doc.find_module_name_from_namespace_reference(ns)
                     .map(ToString::to_string)
@@ -312,37 +314,18 @@ pub fn as_field_name(xml_name: &str) -> String {
     rename_keywords(&field_name).to_string()
 }
 
-/// renamed the Rust keyword and quote the field name
-pub fn rename_keywords(field_name: &str) -> &str {
+/// Makes a field, method or function name usable as a Rust identifier: keywords become raw identifiers,
+/// the few keywords that cannot be raw (`self`, `Self`, `super`, `crate`) get a trailing underscore.
+pub fn rename_keywords(field_name: &str) -> Cow<'_, str> {
     match field_name {
-        "type" => "r#type",
-        "as" => "r#as",
-        "where" => "r#where",
-        "break" => "r#break",
-        "override" => "r#override",
-        "continue" => "r#continue",
-        "crate" => "r#crate",
-        "else" => "r#else",
-        "enum" => "r#enum",
-        "extern" => "r#extern",
-        "false" => "r#false",
-        "true" => "r#true",
-        "fn" => "r#fn",
-        "for" => "r#for",
-        "if" => "r#if",
-        "impl" => "r#impl",
-        "in" => "r#in",
-        "let" => "r#let",
-        "loop" => "r#loop",
-        "match" => "r#match",
-        "mod" => "r#mod",
-        "move" => "r#move",
-        "mut" => "r#mut",
-        "pub" => "r#pub",
-        "ref" => "r#ref",
-        "return" => "r#return",
-        "self" => "r#self",
-        _ => field_name,
+        "self" | "Self" | "super" | "crate" => Cow::Owned(format!("{field_name}_")),
+        // strict and reserved keywords (edition 2024)
+        "as" | "async" | "await" | "break" | "const" | "continue" | "dyn" | "else" | "enum" | "extern" | "false" | "fn"
+        | "for" | "if" | "impl" | "in" | "let" | "loop" | "match" | "mod" | "move" | "mut" | "pub" | "ref" | "return"
+        | "static" | "struct" | "trait" | "true" | "type" | "unsafe" | "use" | "where" | "while" | "abstract" | "become"
+        | "box" | "do" | "final" | "gen" | "macro" | "override" | "priv" | "try" | "typeof" | "unsized" | "virtual"
+        | "yield" => Cow::Owned(format!("r#{field_name}")),
+        _ => Cow::Borrowed(field_name),
     }
 }
 
